@@ -406,13 +406,19 @@ def run(tier: str) -> int:
     o.rule = ("G: every written structure of the Gen_ParserStruct universes (grids: shape x separator style x spacing x "
               "orthogonal array over attribute levels x content offsets; elements: every paired tag of the working "
               "tree's ALLOWED_HTML_TAGS x attribute maps x contents x surroundings; calls: argument lists <= 3 over "
-              "an 8-entry argument catalogue) is one case; V: seeded random pages. distinct_nontrivial = distinct "
+              "an 8-entry argument catalogue; co-occurrence: every ordered pair / triple of every family of nearly equal "
+              "constructs of one kind - equal up to line breaks or blanks at argument edges, case / underscore, entity "
+              "spelling, argument order, an empty last argument, inner blanks, bracket kind - x 3 placements on one page) "
+              "is one case; page histories (start_page, then parse()/expand() calls on the same page over the same "
+              "families) contribute one case per parse(); V: seeded random pages. distinct_nontrivial = distinct "
               "shapes (kinds, tags, attribute counts, nesting; texts ignored) of the real trees.")
     o.assumptions = [
         "attribute names: letters, digits, - _ . ; values additionally ~ (URL-safe); one attribute map has distinct names",
         "an empty cell is written as one blank; inline (|| / !!) rows have cells of one kind (MediaWiki reads || on a ! line as !!)",
         "whitespace at block boundaries (cell, caption, element edges next to block nodes) is not content: Equiv of spec/Unparse.tla",
         "bold/italic/HTML inside template arguments stay text in this parser and are not part of the catalogue",
+        "page histories: expand() steps are executed for what they leave behind on the page (cookie table); what they return "
+        "is not judged here; <nowiki/> flags of cookies are not modelled",
     ]
     known = set(o.known)
     with Scratch("c03m-") as d:
@@ -427,22 +433,19 @@ def run(tier: str) -> int:
                 ("NEST", 2, "GenInv"), ("PAIRT" if thorough else "PAIR", 6 if thorough else 1, "GenInv"),
                 ("HISTT" if thorough else "HIST", 8 if thorough else 1, "GenInvH"),
                 ("FILE", 16 if thorough else 4, "GenInvF")]
-        import os  # TIMING-TOGGLE
-        if os.environ.get("C03_OLD"):  # TIMING-TOGGLE
-            plan = [x for x in plan if x[0] not in ("PAIR", "HIST", "PAIRT", "HISTT")]  # TIMING-TOGGLE
         agg = run_plan(o, plan, known, tags_file, str(pf))
         o.extra["action_coverage"] = dict(sorted(agg["cov"].items()))
         o.extra["cases_per_universe"] = {u: a["n"] for u, a in agg["per"].items()}
         o.extra["random_pages_outside_the_preconditions"] = agg["per"].get("FILE", {}).get("skipped", 0)
         # Demos: TLC itself finds the counterexample (a) with the deviations found in the repository switched
         # on, (b) with a cookie key that is not injective (what-if switches; shows that the universes PAIR /
-        # HIST and the independence law are not vacuous).  The four runs are independent: run them side by side.
+        # HIST and the independence law are not vacuous; two of the three switches in the thorough tier only).
+        # The runs are independent: side by side.
         from concurrent.futures import ThreadPoolExecutor
 
-        demos = ["Demo_ParserStruct_asis", "Demo_ParserStruct_key_linebreaks", "Demo_ParserStruct_key_trims",
-                 "Demo_ParserStruct_key_kind"]
-        if os.environ.get("C03_OLD"):  # TIMING-TOGGLE
-            demos = demos[:1]  # TIMING-TOGGLE
+        demos = ["Demo_ParserStruct_asis", "Demo_ParserStruct_key_linebreaks"]
+        if thorough:
+            demos += ["Demo_ParserStruct_key_trims", "Demo_ParserStruct_key_kind"]
         with ThreadPoolExecutor(len(demos)) as ex:
             rs = list(ex.map(lambda n: tlc("Gen_ParserStruct", n + ".cfg", workers=1, check=False, env={"TAGS_FILE": tags_file}), demos))
         for name, demo in zip(demos, rs):
